@@ -1635,6 +1635,7 @@ def _slice_bounds(sub):
 class _Deslice(ast.NodeTransformer):
     """slice statements over the last axis -> explicit element loops"""
     count = 0
+    whole = ()      # names of arrays that may appear WHOLE on a right-hand side (`result[..., a:b] = a1`): element k of them
 
     def loop(self, lo, hi, body):
         _Deslice.count += 1
@@ -1654,7 +1655,14 @@ class _Deslice(ast.NodeTransformer):
         name, lo, hi = b
         if any(_slice_bounds(x) for x in ast.walk(node.value)):
             raise TranslationError(f"slice statement {ast.unparse(node)}")
-        return self.loop(lo, hi, ast.AugAssign(target=self.elem(name, lo, ast.Store()), op=node.op, value=node.value))
+        outer = self
+
+        class W(ast.NodeTransformer):
+            def visit_Name(s2, nm):
+                if nm.id in outer.whole:
+                    return ast.Subscript(value=ast.Name(id=nm.id, ctx=ast.Load()), slice=ast.Name(id="k_", ctx=ast.Load()), ctx=ast.Load())
+                return nm
+        return self.loop(lo, hi, ast.AugAssign(target=self.elem(name, lo, ast.Store()), op=node.op, value=W().visit(node.value)))
 
     def visit_Assign(self, node):
         if len(node.targets) != 1:
@@ -1671,6 +1679,11 @@ class _Deslice(ast.NodeTransformer):
                 if bb is None:
                     return s2.generic_visit(sub)
                 return outer.elem(bb[0], bb[1], ast.Load())      # same length (numpy raises otherwise): element k of each slice
+
+            def visit_Name(s2, nm):
+                if nm.id in outer.whole:
+                    return ast.Subscript(value=ast.Name(id=nm.id, ctx=ast.Load()), slice=ast.Name(id="k_", ctx=ast.Load()), ctx=ast.Load())
+                return nm
         return self.loop(lo, hi, ast.Assign(targets=[self.elem(name, lo, ast.Store())], value=R().visit(node.value)))
 
 
@@ -1944,6 +1957,64 @@ def generate_algkern(fns, gen_dir, write_if_changed):
         k, txt = KTr(fns, {}, set(), fdk, complex_arrays=set(arrs)).translate(lean_name=lname)
         out.append("/-- the loop of the `np.conjugate` branch of `Modes.__array_ufunc__`" + (" with `out[0]` the operand itself" if inplace else " with a fresh output or another array as `out[0]`")
                    + " (`args[0].<attr>` written `self.<attr>`) -/\n" + txt)
+        sig[k.name] = [(p, k.kinds[p]) for p in k.params]
+    # ---- the `np.add` / `np.subtract` branch of Modes.__array_ufunc__ for two Modes: where the operands' rows go in the result -------
+    addb = None
+    for n in ast.walk(fdu):
+        if isinstance(n, ast.If) and nfkc(ast.unparse(n.test)) == "ufunc in [np.add, np.subtract]":
+            addb = n
+    if addb is None or not (isinstance(addb.body[0], ast.If) and nfkc(ast.unparse(addb.body[0].test)) == "isinstance(args[0], type(self)) and isinstance(args[1], type(self))"):
+        raise TranslationError("ufuncs.__array_ufunc__: add/subtract branch not found")
+    ab = addb.body[0].body
+    txts = [nfkc(ast.unparse(x)) for x in ab]
+
+    def find(prefix):
+        hits = [i for i, t in enumerate(txts) if t.startswith(prefix)]
+        if len(hits) != 1:
+            raise TranslationError(f"ufuncs add/subtract branch: statement `{prefix}…` not found exactly once")
+        return hits[0]
+    need = ["ell_min = min(m1.ell_min, m2.ell_min)", "ell_max = max(m1.ell_max, m2.ell_max)", "a1, a2 = (m1.view(np.ndarray), m2.view(np.ndarray))",
+            "i_s1 = LM_total_size(ell_min, m1.ell_min - 1)", "i_s2 = i_s1 + LM_total_size(m1.ell_min, m1.ell_max)",
+            "i_o1 = LM_total_size(ell_min, m2.ell_min - 1)", "i_o2 = i_o1 + LM_total_size(m2.ell_min, m2.ell_max)", "result[..., i_s1:i_s2] = a1"]
+    idx = [find(t) for t in need]
+    if idx != sorted(idx):
+        raise TranslationError("ufuncs add/subtract branch: statement order")
+    i_sub = find("if ufunc is np.subtract")
+    if i_sub != idx[-1] + 1 or nfkc(ast.unparse(ab[i_sub])) != "if ufunc is np.subtract:\n    result[..., i_o1:i_o2] -= a2\nelse:\n    result[..., i_o1:i_o2] += a2":
+        raise TranslationError("ufuncs add/subtract branch: the accumulate statement")
+    # with `out=`: both operands are copied first and the output is cleared (so the rows read are the operands' content before the call)
+    i_out = find("if out is not None:")
+    if "a1, a2 = (a1.copy(), a2.copy())" not in nfkc(ast.unparse(ab[i_out])) or "result[...] = 0.0" not in nfkc(ast.unparse(ab[i_out])) or not (idx[2] < i_out < idx[3]):
+        raise TranslationError("ufuncs add/subtract branch: the `out` preparation")
+    for sub, lname in ((False, "Modes_add_rows"), (True, "Modes_subtract_rows")):
+        stm = [ab[idx[0]], ab[idx[1]]] + [ab[i] for i in idx[3:7]] + [ab[idx[7]]] + (ab[i_sub].body if sub else ab[i_sub].orelse)
+
+        class MA(ast.NodeTransformer):
+            def visit_Attribute(self, node):
+                node = self.generic_visit(node)
+                if isinstance(node.value, ast.Name) and node.value.id in ("m1", "m2"):
+                    return ast.Name(id=f"{node.value.id}_{node.attr}", ctx=node.ctx)
+                return node
+
+            def visit_Name(self, node):
+                return ast.Name(id="Ysize", ctx=node.ctx) if node.id == "LM_total_size" else node
+
+            def visit_Subscript(self, node):
+                node = self.generic_visit(node)
+                sl = node.slice
+                if isinstance(sl, ast.Tuple) and len(sl.elts) == 2 and isinstance(sl.elts[0], ast.Constant) and sl.elts[0].value is Ellipsis:
+                    return ast.Subscript(value=node.value, slice=sl.elts[1], ctx=node.ctx)
+                return node
+        stm = [MA().visit(_copy.deepcopy(x)) for x in stm]
+        ds = _Deslice()
+        ds.whole = ("a1", "a2")
+        stm = [y for x in stm for y in (lambda r: r if isinstance(r, list) else [r])(ds.visit(x))]
+        fdk = ast.parse(f"def {lname}(a1, a2, result, m1_ell_min, m1_ell_max, m2_ell_min, m2_ell_max):\n    pass\n").body[0]
+        fdk.body = stm
+        ast.fix_missing_locations(fdk)
+        k, txt = KTr(fns, {}, set(), fdk, complex_arrays={"a1", "a2", "result"}).translate(lean_name=lname)
+        out.append(f"/-- `np.{'subtract' if sub else 'add'}(m1, m2[, out=…])` for two Modes of equal spin weight: where the rows of the operands (read-only: their content before\n"
+                   "    the call — with `out=` both are copied first) go in the zero-filled / cleared result -/\n" + txt)
         sig[k.name] = [(p, k.kinds[p]) for p in k.params]
     out.append("end\nend Gen\n")
     write_if_changed(os.path.join(gen_dir, "AlgKern.lean"), "\n".join(out))
